@@ -151,7 +151,7 @@ def run(ctx, build):
     lib.corr_modules(ctx, SPEC, ['fat_dir_corr', 'fat_crash_corr'])
     R = ctx.runner('Fat')
     rng = ctx.rng
-    nhist = 24 if ctx.thorough else 7
+    nhist = 24 if ctx.thorough else 5
     if ctx.widen:
         nhist *= 2
     images = 0
@@ -190,6 +190,8 @@ def run(ctx, build):
         for label, ops in c04.scripts(g.cs):
             if label in ('dot-components', 'many-names-sharing-six-alias-characters') or (not ctx.thorough and label not in ('first-cluster-reused-after-rmdir', 'alias-candidate-equals-an-upper-cased-long-name')):
                 continue
+            if not ctx.thorough and (label, ft) in (('first-cluster-reused-after-rmdir', 'fat12'), ('alias-candidate-equals-an-upper-cased-long-name', 'fat16')):
+                continue            # quick tier: each of the two scripts on one FAT type
             b = fatimg.Builder(g, rng)
             buf = bytearray(b'\xA5' * GUARD) + b.img + bytearray(b'\x5A' * GUARD)
             tr = fattrace.Tracer(buf, slice(GUARD, len(buf) - GUARD))
